@@ -191,7 +191,12 @@ pub trait ByteReader {
         Self: Sized,
         D: Deserializable,
     {
-        let mut result = Vec::with_capacity(num_elements);
+        // `num_elements` usually comes from untrusted input: cap the pre-allocation so that a
+        // malformed length prefix can neither overflow the capacity computation nor request a huge
+        // allocation up front; the vector still grows as elements are actually read
+        const MAX_PREALLOCATED_BYTES: usize = 1 << 16;
+        let max_prealloc = MAX_PREALLOCATED_BYTES / core::cmp::max(core::mem::size_of::<D>(), 1);
+        let mut result = Vec::with_capacity(core::cmp::min(num_elements, max_prealloc));
         for _ in 0..num_elements {
             let element = D::read_from(self)?;
             result.push(element)
